@@ -6,7 +6,9 @@ import CJ.Drv.Util
 * `sctp|<maxMsg>|<endErr>|<items>|<sizes>` — `SCTPConn.Read` calls with the given buffer sizes over a
   scripted stream; `items` = `;`-separated `<hex>:<err>` (`err` ∈ `-` eof timeout short closed other).
   Answer: `;`-separated `<hex>:<err>` per read.
-* `hbsctp|<maxMsg>|<hb hex>|<items>|<sizes>` — the same through the heartbeat filter (`hbConn`).
+* `hbsctp|<maxMsg>|<hb>|<items>|<sizes>` — the same through the heartbeat filter (`hbConn`); `hb` is the
+  *configured* payload: hex, or `nil:<default hex>` (none configured) / `empty:<default hex>` (an empty one
+  configured); the filter works with `validate` of it.
 * `flow|<max>|<ops>` — write flow control; ops `,`-separated: `w<n>` `d<k>` `h<n>` `c`.
   Answer: one outcome per op, then `B=<buffered>`, `T=<token>`.
 * `wd|<T>|<events>` — watchdog; events as characters `t` (tick) `h` (heartbeat) `l` (lost heartbeat)
@@ -49,11 +51,21 @@ def handleSctp (args : List String) : Option String :=
     some (showRes (reads maxMsg ⟨items, endErr⟩ sizes))
   | _ => none
 
+/-- the configured payload, through `validate` -/
+def parseHbConf (s : String) : Option Bytes :=
+  match s.splitOn ":" with
+  | [h] => do
+    let hb ← parseHex h
+    if hb.isEmpty then none else some hb      -- an explicit payload is never written empty
+  | ["nil", d] => do some (validate (← parseHex d) none)
+  | ["empty", d] => do some (validate (← parseHex d) (some []))
+  | _ => none
+
 def handleHb (args : List String) : Option String :=
   match args with
   | [mm, hb, items, sizes] => do
     let maxMsg ← mm.toNat?
-    let hb ← parseHex hb
+    let hb ← parseHbConf hb
     let items ← (fields items ";").mapM parseItem
     let sizes ← parseNatList sizes
     some (showRes (reads maxMsg (filter hb maxMsg ⟨items, .eof⟩) sizes))
